@@ -133,6 +133,11 @@ def main():
         ev["lane"] = (ev["lane"] + 1) % 2; return ev
     one("acc", "Trace_C17", 1, lambda e: e["op"] == "write" and e["obs"][0] != e["obs"][1], m_write_lane, label="acc (a write attributed to another lane)")
 
+    # a NaN where a finite result was recorded must be a rejection (not a tool error): non-finite wire forms decode to a sentinel
+    def m_nan(ev):
+        ev["got"] = []; return ev
+    one("poly", "Trace_Poly", 1, lambda e: e["op"] == "dot", m_nan, label="poly (a dot product replaced by NaN)")
+    one("rel", "Trace_Rel", 1, lambda e: e["op"] == "length", m_nan, env={"HX_OPS": "normalize,length"}, label="rel (a length replaced by NaN)")
     # swizzle histories: an observed lane pair exchanged; the name of a setter replaced by another
     one("swz", "Trace_C16", 2, lambda e: e["op"] == "get" and e["obs"][0] != e["obs"][1], m_obs)
     def m_name(ev):
